@@ -702,7 +702,14 @@ pub fn recover(
     let packets: Vec<IBCTransfer> = if selected_packets.is_some() {
         let selected_packets = selected_packets.unwrap();
         let mut packets: Vec<IBCTransfer> = vec![];
+        let mut seen_packet_ids: Vec<u64> = vec![];
         for packet_id in selected_packets {
+            // A packet listed more than once must be recovered only once,
+            // otherwise its amount would be re-sent multiple times.
+            if seen_packet_ids.contains(&packet_id) {
+                continue;
+            }
+            seen_packet_ids.push(packet_id);
             let packet = INFLIGHT_PACKETS.load(deps.storage, packet_id)?;
             // Ensure the selected packet are all for the same user
             if packet.receiver != receiver.as_str() {
